@@ -33,6 +33,17 @@ MUTATORS = {
     "__setitem__",
     "__delitem__",
     "appendleft",
+    # in-place operations of SymPy's mutable matrices (and numpy arrays)
+    "row_op",
+    "col_op",
+    "zip_row_op",
+    "row_swap",
+    "col_swap",
+    "row_del",
+    "col_del",
+    "copyin_matrix",
+    "copyin_list",
+    "fill",
 }
 
 
